@@ -29,7 +29,21 @@ using json = nlohmann::json;
 static std::string scratch = "/tmp";
 
 // ---- projection: Property -> flat pre-order list [depth,name,value,{attributes}] ----
-static void Dump(const Property &p, long depth, json &out, bool with_index_check) {
+// `want_path`: what path() must be by its documentation (property.h: "full path of property
+// (including parents)", unit test: child of one.two has path "one.two"): the dotted names of the
+// proper ancestors, the anonymous root contributing nothing.  Violations are counted.
+static long path_errors = 0;
+static std::string path_example;
+static void Dump(const Property &p, long depth, json &out, bool with_index_check,
+                 const std::string &want_path = "", bool check_path = false) {
+  if (check_path && p.path() != want_path) {
+    if (path_errors++ == 0) path_example = p.name() + ": path() = '" + p.path() + "', ancestors '" + want_path + "'";
+  }
+  std::string child_path = want_path;
+  if (!p.name().empty() || depth > 0) {
+    if (!child_path.empty()) child_path += ".";
+    child_path += p.name();
+  }
   json at = json::object();
   for (auto it = p.firstAttribute(); it != p.lastAttribute(); ++it) at[it->first] = it->second;
   json node = json::array({depth, p.name(), p.value(), at});
@@ -53,7 +67,17 @@ static void Dump(const Property &p, long depth, json &out, bool with_index_check
     node.push_back(ok);
   }
   out.push_back(node);
-  for (const Property &c : p) Dump(c, depth + 1, out, with_index_check);
+  for (const Property &c : p) Dump(c, depth + 1, out, with_index_check, child_path, check_path);
+}
+
+// dump the children of an anonymous root with the path check on; appends "paths <n> <example>" info
+static json DumpTop(const Property &root, bool with_index_check, json *pathinfo) {
+  path_errors = 0;
+  path_example.clear();
+  json out = json::array();
+  for (const Property &c : root) Dump(c, 0, out, with_index_check, "", true);
+  if (pathinfo) *pathinfo = json::array({path_errors, path_example});
+  return out;
 }
 
 // flat list -> Property children of `root` (entries [d,n,v] or [d,n,v,{attr}], first has d=0)
